@@ -102,21 +102,32 @@ def bad(name, st, model, native=None):
     if st == "unknown":
         return dict(status="undecided", backend="z3", detail=f"{name}: z3 unknown")
     vals = {str(d): str(model[d]) for d in model.decls() if d.arity() == 0 and "!" not in str(d)}
-    nat = native_alignment() if "generate_data" not in name else (native_param("n") or native_param("n1") or native_param("bad"))
+    nat = _safe(native_alignment) if "generate_data" not in name else (native_param("n") or native_param("n1") or native_param("bad"))
     return dict(status="violated", failure="value", backend="pyvc+z3", detail=f"{name} refuted; counter-model {vals}",
                 replay=dict(native_disagrees=bool(nat), solver_model=vals, native=nat or "native loaders stayed aligned",
                             expected="every batch row comes from one original row", inputs=vals))
 
 
-def obs_constructor(shape_in, shape_val):
-    name = f"C15/DataGeneratorObservations.__post_init__/ensures.indices_are_arange[in_rank={len(shape_in)},val_rank={len(shape_val)}]"
+def itable(name, shape):
+    f = z3.Function(name, *([z3.IntSort()] * (len(shape) + 1)))
+    return SArr(shape, lambda *k: f(*[zint(x) for x in k]), "int")
+
+
+def obs_constructor(shape_in, shape_val, int_inputs=False, sharding=False, eq_keys=("a",)):
+    """the stored tables are the user's tables (row k of every stored table is row k of the user's), whatever the dtype of
+    the inputs, with or without a storage sharding, for any insertion order of the observed-parameter dictionary"""
+    name = (f"C15/DataGeneratorObservations.__post_init__/ensures.indices_are_arange[in_rank={len(shape_in)},val_rank={len(shape_val)}"
+            f"{',integer_typed_inputs' if int_inputs else ''}{',sharding_device_given' if sharding else ''}"
+            f"{'' if tuple(eq_keys) == ('a',) else ',observed_parameters=' + '/'.join(eq_keys)}]")
     def run(seed):
         t0 = time.time()
         ex = Executor(SRC)
         sh = lambda s: tuple(n if x == "n" else x for x in s)
+        pin = (itable if int_inputs else table)("pin", sh(shape_in))
+        user_eq = {k_: table("o" + k_, (n,)) for k_ in eq_keys}
         try:
-            rec = ex.construct("DataGeneratorObservations", [Key(), b, table("pin", sh(shape_in)), table("val", sh(shape_val)),
-                                                             {"a": table("oa", (n,))}], {}, [n >= 1])
+            rec = ex.construct("DataGeneratorObservations", [Key(), b, pin, table("val", sh(shape_val)), dict(user_eq)],
+                               dict(sharding_device="a-sharding") if sharding else {}, [n >= 1])
         except pyvc.PyRaise as e:
             return dict(status="violated", failure="raises", detail=f"constructor raises {e.exc_name}", replay=dict(native_disagrees=False))
         k = z3.Int("k")
@@ -124,9 +135,15 @@ def obs_constructor(shape_in, shape_val):
         goals = [("indices", zint(rec.fields["indices"].elem(k)) == k), ("n", zint(rec.fields["n"]) == n),
                  ("input_2d", z3.BoolVal(len(rec.fields["observed_pinn_in"].shape) == 2)),
                  ("value_2d", z3.BoolVal(len(rec.fields["observed_values"].shape) == 2)),
-                 ("param_2d", z3.BoolVal(len(rec.fields["observed_eq_params"]["a"].shape) == 2)),
+                 ("param_2d", z3.BoolVal(all(len(v.shape) == 2 for v in rec.fields["observed_eq_params"].values()))),
                  ("first_call_reshuffles", zint(rec.fields["curr_idx"]) == INT32_MAX - b - 1),
-                 ("input_content", rec.fields["observed_pinn_in"].elem(k, 0) == (table("pin", sh(shape_in)).elem(k, 0) if len(shape_in) == 2 else table("pin", sh(shape_in)).elem(k)))]
+                 ("input_content", rec.fields["observed_pinn_in"].elem(k, 0) == (pin.elem(k, 0) if len(shape_in) == 2 else pin.elem(k))),
+                 ("value_content", pyvc.zreal(rec.fields["observed_values"].elem(k, 0)) ==
+                  (table("val", sh(shape_val)).elem(k, 0) if len(shape_val) == 2 else table("val", sh(shape_val)).elem(k))),
+                 ("parameter_keys", z3.BoolVal(sorted(rec.fields["observed_eq_params"].keys()) == sorted(eq_keys)))]
+        for k_ in eq_keys:
+            if k_ in rec.fields["observed_eq_params"]:
+                goals.append((f"parameter_content[{k_}]", rec.fields["observed_eq_params"][k_].elem(k, 0) == user_eq[k_].elem(k)))
         return finish(name, goals, pre, ex, t0)
     return FnObligation(name, run, [DG + "DataGeneratorObservations.__post_init__"])
 
@@ -247,6 +264,13 @@ def index_invariant():
     return FnObligation(name, run, [DG + "DataGeneratorObservations.obs_batch"])
 
 
+def _safe(f):
+    try:
+        return f()
+    except Exception:
+        return None
+
+
 def native_alignment():
     import numpy as np, jax, jax.numpy as jnp
     from jinns.data._DataGenerators import DataGeneratorObservations
@@ -258,6 +282,24 @@ def native_alignment():
         i, v, a = np.asarray(bt["pinn_in"])[:, 0], np.asarray(bt["val"])[:, 0], np.asarray(bt["eq_params"]["a"])[:, 0]
         if not (np.allclose(v, i + 10) and np.allclose(a, i + 20)):
             return [f"call {call}: batch rows mix different table rows: inputs {i.tolist()}, values {v.tolist()}, parameter {a.tolist()}"]
+    # integer-typed inputs (time-step indices), real-valued measurements; two observed parameters written in non-sorted
+    # order; with and without a storage sharding
+    vals = 0.113 + 1.7 * np.arange(nn)
+    for shard in (None, jax.sharding.SingleDeviceSharding(jax.devices()[0])):
+        kw = dict(sharding_device=shard) if shard is not None else {}
+        g = DataGeneratorObservations(jax.random.PRNGKey(2), bb, jnp.arange(nn, dtype=jnp.int32)[:, None], jnp.asarray(vals)[:, None],
+                                      {"nu": 100.0 + jnp.arange(nn, dtype=float), "D": 200.0 + jnp.arange(nn, dtype=float)}, **kw)
+        for call in range(4):
+            g, bt = g.get_batch()
+            i = np.asarray(bt["pinn_in"])[:, 0].astype(int)
+            v = np.asarray(bt["val"], dtype=float)[:, 0]
+            nu_, d_ = np.asarray(bt["eq_params"]["nu"], dtype=float)[:, 0], np.asarray(bt["eq_params"]["D"], dtype=float)[:, 0]
+            if not np.allclose(v, vals[i], rtol=1e-5):
+                return [f"integer-typed inputs{', sharding_device given' if shard is not None else ''}: batch values {v.tolist()} are not the "
+                        f"table values {vals[i].tolist()} of rows {i.tolist()}"]
+            if not (np.allclose(nu_, 100.0 + i) and np.allclose(d_, 200.0 + i)):
+                return [f"observed parameters {{'nu', 'D'}}{', sharding_device given' if shard is not None else ''}: rows {i.tolist()} give "
+                        f"nu={nu_.tolist()}, D={d_.tolist()} (expected 100+row, 200+row)"]
     return None
 
 
@@ -291,6 +333,8 @@ def native_param(user_shape):
 def obligations(tier):
     obs = [obs_alignment(2, 1, ("a", "b")), obs_alignment(1, 2, ("a",)), obs_alignment(1, 1, ()), index_invariant(),
            obs_constructor(("n", 2), ("n", 1)), obs_constructor(("n",), ("n",)), obs_constructor_rejects(),
+           obs_constructor(("n", 2), ("n", 1), int_inputs=True), obs_constructor(("n",), ("n", 2), int_inputs=True),
+           obs_constructor(("n", 1), ("n", 1), sharding=True, eq_keys=("nu", "D")), obs_constructor(("n", 1), ("n", 1), eq_keys=("nu", "D")),
            param_generate("n"), param_generate("n1"), param_generate("bad"), param_generate("short"),
            param_generate("n", "grid"), param_generate("n1", "grid"), param_generate("bad", "grid"), multi_loader()]
     return obs
